@@ -49,6 +49,7 @@ type walker struct {
 	elem    ssa.Value // loop element *AVP
 	isPath  bool
 	query   *ssa.Parameter // code (uint32) or path ([]uint32)
+	first   bool           // returns the first match (*AVP) instead of a list
 }
 
 func (c *Ctx) walkers() []*walker {
@@ -57,10 +58,18 @@ func (c *Ctx) walkers() []*walker {
 		if pkgOf(f).Path() != pkgDiam || len(f.Params) < 2 || !isAVPSlice(f.Params[0].Type()) || f.Signature.Recv() != nil {
 			continue
 		}
-		if f.Signature.Results().Len() < 1 || !isAVPSlice(f.Signature.Results().At(0).Type()) {
+		if f.Signature.Results().Len() < 1 {
 			continue
 		}
-		w := &walker{fn: f, avps: f.Params[0], query: f.Params[1]}
+		first := false
+		if !isAVPSlice(f.Signature.Results().At(0).Type()) {
+			rp, ok := f.Signature.Results().At(0).Type().(*types.Pointer)
+			if !ok || !flow.TypeIs(rp.Elem(), pkgDiam, "AVP") {
+				continue
+			}
+			first = true
+		}
+		w := &walker{fn: f, avps: f.Params[0], query: f.Params[1], first: first}
 		for _, ci := range flow.CallInstrs(f) {
 			if call, ok := ci.(*ssa.Call); ok && flow.StaticCallee(call) == f {
 				w.recCall = call
@@ -129,7 +138,46 @@ func runC20(c *Ctx) {
 		// ---- R1 ----
 		n := 0
 		var matchAppend *ssa.Call
+		var matchReturn ssa.Instruction
+		if w.first {
+			// first-match form: every return yields nil, the loop element under the code test, or the
+			// (non-nil) result of the recursive search
+			k := 0
+			flow.Instrs(f, func(in ssa.Instruction) {
+				ret, ok := in.(*ssa.Return)
+				if !ok || len(ret.Results) == 0 {
+					return
+				}
+				for _, src := range flow.SpillSources(ret.Results[0]) {
+					k++
+					n++
+					key := fmt.Sprintf("%s:return#%d", fname(f), k)
+					switch {
+					case flow.IsNilConst(src):
+						r.Ok("R1", key, c.pos(ret), "returns nil (nothing found)")
+					case src == w.elem:
+						if codeMatchGuard(ret, w.elem, isWant) {
+							matchReturn = ret
+							r.Ok("R1", key, c.pos(ret), "returns the loop element on the edge elem.Code == wanted code")
+						} else {
+							r.Fail("R1", key, c.pos(ret), "the loop element is returned without the code-equality test dominating it: the search can return a different AVP")
+						}
+					case src == ssa.Value(w.recCall):
+						r.Ok("R1", key, c.pos(ret), "returns the result of the recursive search")
+					default:
+						if ex, ok := src.(*ssa.Extract); ok && ex.Tuple == ssa.Value(w.recCall) {
+							r.Ok("R1", key, c.pos(ret), "returns the result of the recursive search")
+						} else {
+							r.Fail("R1", key, c.pos(ret), "something other than the matching loop element or a recursive result is returned by the search")
+						}
+					}
+				}
+			})
+		}
 		flow.Instrs(f, func(in ssa.Instruction) {
+			if w.first {
+				return
+			}
 			call, ok := in.(*ssa.Call)
 			if !ok || !isBuiltinCall(call, "append") || !isAVPSlice(call.Type()) {
 				return
@@ -164,17 +212,7 @@ func runC20(c *Ctx) {
 						extra := ""
 						if w.isPath {
 							// and len(path) == 1
-							okLen := false
-							for _, g := range flow.Guards(call) {
-								rl, ok := condRel(g.If.Cond, g.Taken)
-								if ok && rl.op == token.EQL {
-									if x, isLen := builtinOf(rl.a, "len"); isLen && x == ssa.Value(w.query) {
-										if k, ok := flow.ConstInt(rl.b); ok && k == 1 {
-											okLen = true
-										}
-									}
-								}
-							}
+							okLen := pathEndGuard(call, w.query)
 							if !okLen {
 								r.Fail("R3", key+"-at-path-end", c.pos(call), "an element is added to a path search result although the path is not at its last component: AVPs at the wrong depth are returned")
 								return
@@ -222,18 +260,31 @@ func runC20(c *Ctx) {
 		// ---- R2 ----
 		head := w.loop.Head.Instrs[0]
 		// pre-order: no path from the recursive call to the match append within the same iteration
+		var matchAt ssa.Instruction
 		if matchAppend != nil {
+			matchAt = matchAppend
+		} else if matchReturn != nil {
+			matchAt = matchReturn
+		}
+		if matchAt != nil {
 			key := fname(f) + ":pre-order"
-			p := flow.PathAvoiding(f, w.recCall, func(in ssa.Instruction) bool { return in == ssa.Instruction(matchAppend) }, func(in ssa.Instruction) bool { return in == head })
+			p := flow.PathAvoiding(f, w.recCall, func(in ssa.Instruction) bool { return in == matchAt }, func(in ssa.Instruction) bool { return in == head })
 			r.Check(p == nil, "R2", key, c.pos(w.recCall), "the element itself is tested before its children are searched (document order)", "an element's children are searched before the element itself is tested: results are not in depth-first document order", c.witness(p)...)
 		}
 		if !w.isPath {
 			// children always searched: from the loop body entry, every path to the next iteration passes the Type()==Grouped test
 			key := fname(f) + ":children-always-searched"
 			var typeTest ssa.Instruction
+			tests := map[ssa.Instruction]bool{}
 			flow.Instrs(f, func(in ssa.Instruction) {
-				if call, ok := in.(*ssa.Call); ok && call.Call.IsInvoke() && call.Call.Method.Name() == "Type" && w.loop.Blocks[call.Block()] {
-					typeTest = call
+				if !w.loop.Blocks[in.Block()] {
+					return
+				}
+				if isGroupedTest(in, 0) {
+					tests[in] = true
+					if typeTest == nil {
+						typeTest = in
+					}
 				}
 			})
 			if typeTest == nil {
@@ -245,7 +296,7 @@ func runC20(c *Ctx) {
 						bodyFirst = s.Instrs[0]
 					}
 				}
-				p := flow.PathAvoiding(f, w.loop.Head.Instrs[len(w.loop.Head.Instrs)-1], func(in ssa.Instruction) bool { return in == head }, func(in ssa.Instruction) bool { return in == typeTest || !w.loop.Blocks[in.Block()] })
+				p := flow.PathAvoiding(f, w.loop.Head.Instrs[len(w.loop.Head.Instrs)-1], func(in ssa.Instruction) bool { return in == head }, func(in ssa.Instruction) bool { return tests[in] || !w.loop.Blocks[in.Block()] })
 				_ = bodyFirst
 				r.Check(p == nil, "R2", key, c.pos(typeTest), "every iteration that continues reaches the grouped test (a matching group's children are searched too)", "an iteration can move on to the next element without looking into the current element's children (e.g. after a match): nested occurrences are missed", c.witness(p)...)
 			}
@@ -283,16 +334,7 @@ func runC20(c *Ctx) {
 			key := fname(f) + ":recursion-arguments"
 			good, why := true, ""
 			// first arg: children of the element's *GroupedAVP
-			okChildren := false
-			if u, ok := w.recCall.Call.Args[0].(*ssa.UnOp); ok {
-				if tn, fld, base, ok := flow.FieldOf(u); ok && tn == "GroupedAVP" && fld == "AVP" {
-					if ta, ok := base.(*ssa.TypeAssert); ok {
-						if tn2, fld2, b2, ok := flow.FieldOf(ta.X); ok && tn2 == "AVP" && fld2 == "Data" && b2 == w.elem {
-							okChildren = true
-						}
-					}
-				}
-			}
+			okChildren := childrenOf(w.recCall.Call.Args[0], 0) == w.elem
 			if !okChildren {
 				good, why = false, "the recursion does not descend into the children of the current element's *GroupedAVP"
 			}
@@ -327,7 +369,7 @@ func runC20(c *Ctx) {
 			continue
 		}
 		key := fname(f) + ":resolves-through-dictionary"
-		var wcall, lookup *ssa.Call
+		var wcall *ssa.Call
 		for _, ci := range flow.CallInstrs(f) {
 			call, ok := ci.(*ssa.Call)
 			if !ok {
@@ -338,12 +380,9 @@ func runC20(c *Ctx) {
 					wcall = call
 				}
 			}
-			if flow.IsCallTo(call, pkgDict, "Parser", "FindAVPWithVendor") {
-				lookup = call
-			}
 		}
-		if wcall == nil || lookup == nil {
-			r.Fail("R4", key, c.fpos(f), "the entry point does not resolve its argument through the dictionary and then walk the message")
+		if wcall == nil {
+			r.Fail("R4", key, c.fpos(f), "the entry point does not walk the message with one of the search functions")
 			continue
 		}
 		good, why := true, ""
@@ -351,43 +390,76 @@ func runC20(c *Ctx) {
 		if tn, fld, base, ok := flow.FieldOf(flow.Peel(wcall.Call.Args[0])); !ok || tn != "Message" || fld != "AVP" || flow.Peel(base) != ssa.Value(f.Params[0]) {
 			good, why = false, "the walker is not given the message's complete top-level AVP list"
 		}
-		// lookup: app id of the message, caller's code, caller's vendor
-		if tn, fld, _, ok := flow.FieldOf(flow.Peel(lookup.Call.Args[1])); !ok || tn != "Header" || fld != "ApplicationID" {
-			good, why = false, "the dictionary lookup does not use the message's application id"
+		// the code(s) handed to the walker: on every path the Code of the dictionary AVP that
+		// FindAVPWithVendor(message's application id, caller's argument, …) returned — directly or through a
+		// resolving helper; for a path, every stored element
+		var lookups []*ssa.Call
+		isDictCode := func(v ssa.Value) bool {
+			tn, fld, base, ok := flow.FieldOf(flow.Peel(v))
+			if !ok || tn != "AVP" || fld != "Code" {
+				return false
+			}
+			ex, ok := flow.Peel(base).(*ssa.Extract)
+			if !ok {
+				return false
+			}
+			call, ok := ex.Tuple.(*ssa.Call)
+			if !ok || !flow.IsCallTo(call, pkgDict, "Parser", "FindAVPWithVendor") {
+				return false
+			}
+			lookups = append(lookups, call)
+			return true
 		}
-		// code argument derives from the lookup result's Code
+		codeArg := wcall.Call.Args[1]
 		codeOK := false
-		var check func(v ssa.Value, d int)
-		check = func(v ssa.Value, d int) {
-			if d > 5 || v == nil {
-				return
-			}
-			if tn, fld, base, ok := flow.FieldOf(flow.Peel(v)); ok && tn == "AVP" && fld == "Code" {
-				if ex, ok := flow.Peel(base).(*ssa.Extract); ok && ex.Tuple == ssa.Value(lookup) {
-					codeOK = true
-				}
-				return
-			}
-			// pathCodes slice: stores into its elements
-			if mk, ok := v.(*ssa.MakeSlice); ok {
-				for _, ref := range flow.Referrers(mk) {
-					if ia, ok := ref.(*ssa.IndexAddr); ok {
-						for _, r2 := range flow.Referrers(ia) {
-							if st, ok := r2.(*ssa.Store); ok {
-								check(st.Val, d+1)
+		if mk, isMk := codeArg.(*ssa.MakeSlice); isMk {
+			n, all := 0, true
+			for _, ref := range flow.Referrers(mk) {
+				if ia, ok := ref.(*ssa.IndexAddr); ok {
+					for _, r2 := range flow.Referrers(ia) {
+						if st, ok := r2.(*ssa.Store); ok {
+							n++
+							if ok, saw := c.derivesOnlyFrom(st.Val, isDictCode, 0, map[ssa.Value]bool{}); !ok || !saw {
+								all = false
 							}
 						}
 					}
 				}
 			}
+			codeOK = n > 0 && all
+		} else if ok, saw := c.derivesOnlyFrom(codeArg, isDictCode, 0, map[ssa.Value]bool{}); ok && saw {
+			codeOK = true
 		}
-		check(wcall.Call.Args[1], 0)
 		if !codeOK {
 			good, why = false, "the code handed to the walker is not the Code of the dictionary AVP found for the caller's argument (a name or a vendor-scoped code is searched raw)"
 		}
-		// walk only on the lookup's nil-error edge
+		for _, lookup := range lookups {
+			if tn, fld, _, ok := flow.FieldOf(flow.Peel(lookup.Call.Args[1])); !ok || tn != "Header" || fld != "ApplicationID" {
+				good, why = false, "the dictionary lookup does not use the message's application id"
+			}
+		}
+		// walk only when the resolution succeeded: the walk is not reachable from the error edge of the
+		// resolving call made in the entry point (the lookup itself or the helper that wraps it)
 		if good {
-			if len(errorEdgeBlocks(lookup)) == 0 || errorEdgeBlocks(lookup)[wcall.Block()] || pathFromErrEdge(f, lookup, wcall) != nil {
+			var res *ssa.Call
+			for _, ci := range flow.CallInstrs(f) {
+				call, ok := ci.(*ssa.Call)
+				if !ok || call == wcall || errorResult(call) == nil {
+					continue
+				}
+				isRes := flow.IsCallTo(call, pkgDict, "Parser", "FindAVPWithVendor")
+				if g := flow.StaticCallee(call); !isRes && g != nil && g.Blocks != nil && c.P.IsLibrary(g) {
+					for _, cj := range flow.CallInstrs(g) {
+						if flow.IsCallTo(cj, pkgDict, "Parser", "FindAVPWithVendor") {
+							isRes = true
+						}
+					}
+				}
+				if isRes {
+					res = call
+				}
+			}
+			if res == nil || len(errorEdgeBlocks(res)) == 0 || errorEdgeBlocks(res)[wcall.Block()] || pathFromErrEdge(f, res, wcall) != nil {
 				good, why = false, "the message is searched although the dictionary lookup failed"
 			}
 		}
@@ -398,4 +470,138 @@ func runC20(c *Ctx) {
 // codeMatchGuardNeg: in is dominated by the failing edge of elem.Code != want (i.e. equality holds).
 func codeMatchGuardNeg(in ssa.Instruction, elem ssa.Value, isWant func(ssa.Value) bool) bool {
 	return codeMatchGuard(in, elem, isWant)
+}
+
+// pathEndGuard: in is guarded by "the path is at its last component": len(path) == 1, or len(path[1:]) == 0
+// (any re-slice path[k:] with the constant adjusted).
+func pathEndGuard(in ssa.Instruction, path ssa.Value) bool {
+	for _, g := range flow.Guards(in) {
+		rl, ok := condRel(g.If.Cond, g.Taken)
+		if !ok || rl.op != token.EQL {
+			continue
+		}
+		for _, pr := range [][2]ssa.Value{{rl.a, rl.b}, {rl.b, rl.a}} {
+			x, isLen := builtinOf(pr[0], "len")
+			k, isK := flow.ConstInt(pr[1])
+			if !isLen || !isK {
+				continue
+			}
+			off := int64(0)
+			for i := 0; i < 3; i++ {
+				sl, isSl := x.(*ssa.Slice)
+				if !isSl || sl.High != nil {
+					break
+				}
+				lo := int64(0)
+				if sl.Low != nil {
+					var okc bool
+					if lo, okc = flow.ConstInt(sl.Low); !okc {
+						break
+					}
+				}
+				off += lo
+				x = sl.X
+			}
+			if x == path && k+off == 1 {
+				return true
+			}
+		}
+	}
+	return false
+}
+
+// isGroupedTest: in tests whether an AVP's value is a group — a.Data.Type() compared later, a checked type
+// assertion to *GroupedAVP, or a package-local helper doing one of these on its argument.
+func isGroupedTest(in ssa.Instruction, depth int) bool {
+	switch x := in.(type) {
+	case *ssa.Call:
+		if x.Call.IsInvoke() && x.Call.Method.Name() == "Type" {
+			return true
+		}
+		g := flow.StaticCallee(x)
+		if g == nil || g.Blocks == nil || depth > 1 || g.Pkg == nil || g.Pkg.Pkg.Path() != pkgDiam || g == x.Parent() {
+			return false
+		}
+		// a helper applied to an AVP (not a walk over a list)
+		takesAVP := false
+		for _, p := range g.Params {
+			if pt, ok := p.Type().(*types.Pointer); ok && flow.TypeIs(pt.Elem(), pkgDiam, "AVP") {
+				takesAVP = true
+			}
+		}
+		if !takesAVP {
+			return false
+		}
+		found := false
+		flow.Instrs(g, func(y ssa.Instruction) {
+			if isGroupedTest(y, depth+1) {
+				found = true
+			}
+		})
+		return found
+	case *ssa.TypeAssert:
+		if pt, ok := x.AssertedType.(*types.Pointer); ok && x.CommaOk && flow.TypeIs(pt.Elem(), pkgDiam, "GroupedAVP") {
+			return true
+		}
+	}
+	return false
+}
+
+// childrenOf: v is the member list of the group held by some AVP value — elem.Data.(*GroupedAVP).AVP, directly
+// or as the result of a package-local helper applied to elem. Returns that AVP value (nil when v is not of
+// this shape).
+func childrenOf(v ssa.Value, depth int) ssa.Value {
+	if depth > 2 {
+		return nil
+	}
+	switch x := v.(type) {
+	case *ssa.UnOp:
+		if tn, fld, base, ok := flow.FieldOf(x); ok && tn == "GroupedAVP" && fld == "AVP" {
+			b := base
+			if ex, isEx := b.(*ssa.Extract); isEx {
+				b = ex.Tuple
+			}
+			if ta, ok := b.(*ssa.TypeAssert); ok {
+				if tn2, fld2, b2, ok := flow.FieldOf(ta.X); ok && tn2 == "AVP" && fld2 == "Data" {
+					return b2
+				}
+			}
+		}
+	case *ssa.Extract:
+		if call, ok := x.Tuple.(*ssa.Call); ok {
+			return childrenViaHelper(call, x.Index, depth)
+		}
+	case *ssa.Call:
+		return childrenViaHelper(x, 0, depth)
+	}
+	return nil
+}
+
+func childrenViaHelper(call *ssa.Call, idx, depth int) ssa.Value {
+	g := flow.StaticCallee(call)
+	if g == nil || g.Blocks == nil {
+		return nil
+	}
+	var res ssa.Value
+	n := 0
+	for _, rv := range flow.ReturnValues(g, idx) {
+		if flow.IsNilConst(rv) {
+			continue
+		}
+		n++
+		base := childrenOf(rv, depth+1)
+		p, ok := base.(*ssa.Parameter)
+		if !ok || p.Parent() != g {
+			return nil
+		}
+		i := paramIndex(g, p)
+		if i >= len(call.Call.Args) || (res != nil && res != call.Call.Args[i]) {
+			return nil
+		}
+		res = call.Call.Args[i]
+	}
+	if n == 0 {
+		return nil
+	}
+	return res
 }
